@@ -22,7 +22,7 @@ pub static DEF: CheckDef = CheckDef {
     id: "C09",
     level: "exploration",
     technique: "deterministic component simulation: seeded presentation histories against the real SignatureCache, verdict-equality oracle vs direct verification and a by-construction validity model",
-    runs: (1500, 60000),
+    runs: (3000, 100000),
     generate,
     execute,
     shrink,
